@@ -5,6 +5,7 @@
  *   thread <kind> <sp_off> <stack_pages> <name-hex|->     kind: block | spin | nullsp | exiter | vforker
  *   anon <pages> <perms rwx-> <unmap_after 0|1>            anonymous mapping with address-derived fill
  *   file <path> <offset> <pages> <perms>                   file mapping
+ *   poke <thread-idx> <off> <anon-idx> <aoff>              store &anon[aoff] at thread's sp+off (after both lines)
  *   anonat <hexaddr> <pages> <perms>                       anonymous mapping at a fixed address
  *   filexat <hexaddr> <hexpath> <offset> <pages> <perms>   file mapping at a fixed address
  *   appmem <anon-index> <offset> <len>                     application memory region (reported on stdout)
@@ -111,7 +112,7 @@ int main(int argc, char **argv) {
   FILE *f = fopen(argv[1], "r"); if (!f) return 3;
   char line[1024]; char facts[8192]; int fl = 0;
   while (fgets(line, sizeof line, f)) {
-    char a[64], b[512]; unsigned u1, u2, u3; unsigned long ul1;
+    char a[64], b[512]; unsigned u1, u2, u3, u4; unsigned long ul1;
     if (sscanf(line, "thread %63s %u %u %511s", a, &u1, &u2, b) == 4) {
       struct tcfg *t = &T[NT]; t->idx = NT; t->sp_off = u1; t->pages = u2;
       t->kind = !strcmp(a, "spin") ? K_SPIN : !strcmp(a, "nullsp") ? K_NULLSP : !strcmp(a, "exiter") ? K_EXITER : !strcmp(a, "vforker") ? K_VFORKER : K_BLOCK;
@@ -165,6 +166,9 @@ int main(int argc, char **argv) {
       close(fd); fl += snprintf(facts + fl, sizeof facts - fl, " file=%lx", (unsigned long)m);
     } else if (sscanf(line, "appmem %u %u %u", &u1, &u2, &u3) == 3) {
       fl += snprintf(facts + fl, sizeof facts - fl, " app=%lx:%u", (unsigned long)(A[u1].p + u2), u3);
+    } else if (sscanf(line, "poke %u %u %u %u", &u1, &u2, &u3, &u4) == 4) {
+      /* a pointer into anonymous mapping u3 stored in thread u1's stack, u2 bytes above its stack pointer */
+      if (u1 < (unsigned)NT && u3 < (unsigned)NA) *(uint64_t *)(uintptr_t)(T[u1].sp + u2) = (uint64_t)(uintptr_t)(A[u3].p + u4);
     } else if (!strncmp(line, "mainexit", 8)) {
       main_exits = 1;
     } else if (sscanf(line, "fd %63s", a) == 1) {
